@@ -37,6 +37,12 @@ impl TranspositionTable {
         }
         return None;
     }
+
+    /// Verification hook: every entry currently in the table.
+    #[cfg(flounder_verif)]
+    pub fn verif_entries(&self) -> Vec<Entry> {
+        self.table.values().copied().collect()
+    }
 }
 
 #[derive(Copy, Clone, Debug, PartialEq)]
